@@ -489,6 +489,35 @@ def stage_search_modes(ctx: Ctx, progs):
                                        'same_keys_other_values': sorted(got[k][2]) == sorted(want[k][2])})
 
 
+TM_HDR = ('From Coq Require Import List Bool Arith ZArith NArith.\nFrom PF Require Import models.TreeMatch.\nImport ListNotations.\n')
+_TM_KINDS = {}
+
+
+def enc_tree(n) -> str:
+    """an AST (or a field value) as a models/TreeMatch.v tree: Node kind [fields in _fields order], a list as Node 0 [...], primitives as leaves; the three expression
+    contexts are ONE kind (match() without ctx= does not tell them apart)"""
+    if isinstance(n, ast.AST):
+        name = 'expr_context' if isinstance(n, ast.expr_context) else type(n).__name__
+        k = _TM_KINDS.setdefault(name, len(_TM_KINDS) + 1)
+        return f'(Node {k} [' + '; '.join(enc_tree(getattr(n, f, None)) for f in n._fields) + '])'
+    if isinstance(n, list):
+        return '(Node 0 [' + '; '.join(enc_tree(x) for x in n) + '])'
+    cp = lambda t: '[' + '; '.join(f'{c}%N' for c in t) + ']'
+    if n is None:
+        return '(Leaf VNone)'
+    if n is ...:
+        return '(Leaf VDots)'
+    if isinstance(n, bool):
+        return f'(Leaf (VBool {"true" if n else "false"}))'
+    if isinstance(n, int):
+        return f'(Leaf (VInt ({n})%Z))'
+    if isinstance(n, str):
+        return f'(Leaf (VStr {cp(map(ord, n))}))'
+    if isinstance(n, bytes):
+        return f'(Leaf (VBytes {cp(n)}))'
+    return f'(Leaf (VNum {cp(map(ord, repr(n)))}))'
+
+
 def stage_structure(ctx: Ctx, progs):
     """self-match, one-leaf difference, layout independence, pure-AST agreement, statelessness"""
     import fst
@@ -497,6 +526,12 @@ def stage_structure(ctx: Ctx, progs):
     pats = [('Call(args=[*, Name, *])', lambda: MCall(args=[MQSTAR, M(n=ast.Name), MQSTAR])),
             ('List(elts=[a*, rest])', lambda: MList(elts=[MQSTAR(a=MName('a')), MQSTAR(r=...)])),
             ('OR(Name,NOT(Constant))', lambda: MOR(ast.Name, MNOT(ast.Constant)))]
+    tm_terms, tm_meta = [], []
+
+    def tm_case(f, pat, got, what):
+        if sum(1 for _ in ast.walk(f.a)) <= 120 and len(tm_terms) < ctx.scale(600, 6000):
+            tm_terms.append(f'Bool.eqb (tmatch (of_tree {enc_tree(pat)}) {enc_tree(f.a)}) {"true" if got else "false"}')
+            tm_meta.append({'node_src': f.src[:120], 'pattern': ast.dump(pat)[:300], 'what': what, 'real_match': got})
     for pi, src in enumerate(progs):
         root = fst.FST(src, 'exec')
         nodes = list(root.walk(True))
@@ -507,7 +542,9 @@ def stage_structure(ctx: Ctx, progs):
             a = f.a
             ctx.tick((pi, root.child_path(f, True)), 'structure')
             # any tree matches the pattern built from its own AST
-            if f.match(a) is None:
+            self_m = f.match(a) is not None
+            tm_case(f, f.copy_ast(), self_m, 'own AST')
+            if not self_m:
                 ctx.violation(f'self-match|{type(a).__name__}', 'a node does not match the pattern built from its own AST', {'src': src, 'node': type(a).__name__, 'node_src': f.src[:80]})
                 continue
             # ... and not one that differs in a single leaf
@@ -525,7 +562,9 @@ def stage_structure(ctx: Ctx, progs):
                     lf.name += '_x'
                 else:
                     lf.attr += '_x'
-                if f.match(cp) is not None:
+                leaf_m = f.match(cp) is not None
+                tm_case(f, cp, leaf_m, 'one leaf changed')
+                if leaf_m:
                     ctx.violation(f'leaf-differs|{type(a).__name__}|{type(lf).__name__}', 'a node matches a pattern that differs from it in one leaf',
                                   {'src': src, 'node': type(a).__name__, 'node_src': f.src[:80], 'leaf': type(lf).__name__})
                     continue
@@ -556,6 +595,13 @@ def stage_structure(ctx: Ctx, progs):
                     if f2 is not None and shape(f2.match(pat)) != shape(m1):
                         ctx.violation(f'layout|{name}|{type(a).__name__}', 'match result depends on layout', {'src': src, 'relayout': re_src, 'pattern': name, 'node_src': f.src[:80]})
 
+
+    # the same (pattern, target) pairs on the tree-matching model, plus a wildcard leaf and a falsy-leaf family per sampled Constant
+    try:
+        failed = coq_eval_bools('C17_treematch', TM_HDR, tm_terms, shard=150)
+        ctx.correspondence('models/TreeMatch.v tmatch == FST.match(<AST pattern>) (a node against its own AST and against a copy with one leaf changed)', len(tm_terms), [tm_meta[k] for k in failed])
+    except CoqEvalError as e:
+        ctx.broken.append({'kind': 'correspondence', 'name': 'treematch', 'detail': str(e)[:2000]})
 
 def stage_history(ctx: Ctx):
     """a match never depends on previous calls: ONE pattern object matched against a sequence of targets gives, at every step, what a freshly built
@@ -729,10 +775,11 @@ def stage_primitive_leaves(ctx: Ctx):
     as a Constant AST and inside a whole statement AST, target formatted and pure AST, match() and search(): a match exactly when type and value are the same (0 / False / 0.0 / '' / None all differ)"""
     import fst
     from fst.match import MConstant, MAssign, MName, M
-    same = lambda p, t: type(p) is type(t) and p == t and repr(p) == repr(t)
-    for p in PRIM_LEAVES:
-        for t in PRIM_LEAVES:
-            src = f'x = {t!r}'
+    same = lambda p, t: type(p) is type(t) and p == t and repr(p) == repr(t)   # an Ellipsis CONSTANT in a pattern is a literal (only a pattern field given as `...` is the wildcard)
+    tm_terms, tm_meta = [], []
+    for p in PRIM_LEAVES + [...]:
+        for t in PRIM_LEAVES + [...]:
+            src = f'x = {t!r}' if t is not ... else 'x = ...'
             root = fst.FST(src, 'exec')
             tgt = root.body[0].value
             if not isinstance(tgt.a, ast.Constant):
@@ -743,7 +790,7 @@ def stage_primitive_leaves(ctx: Ctx):
                 got['MConstant/fst'] = tgt.match(MConstant(value=p)) is not None
                 got['MConstant/ast'] = MConstant(value=p).match(ast.Constant(value=tgt.a.value)) is not None
                 got['Constant/fst'] = tgt.match(ast.Constant(value=p)) is not None
-                got['M(tag)/fst'] = tgt.match(MConstant(value=M(v=p))) is not None
+                got['M(tag)/fst'] = (tgt.match(MConstant(value=M(v=p))) is not None) if p is not ... else want    # M(v=...) is the wildcard: checked against the model below
                 got['stmt/fst'] = root.body[0].match(ast.Assign(targets=[ast.Name(id='x', ctx=ast.Store())], value=ast.Constant(value=p))) is not None
                 got['stmt/ast'] = MAssign(targets=[MName('x')], value=MConstant(value=p)).match(ast.parse(src).body[0]) is not None
                 got['search'] = any(m.matched is tgt for m in root.search(MConstant(value=p)))
@@ -751,11 +798,24 @@ def stage_primitive_leaves(ctx: Ctx):
                 ctx.violation(f'prim-leaf-raise|{type(e).__name__}', 'matching a primitive leaf raised', {'pattern_value': repr(p), 'target_src': src, 'error': repr(e)[:200]})
                 continue
             ctx.tick(('prim-leaf', repr(p), repr(t)), 'prim-leaf:' + ('same' if want else 'differs'))
+            tm_terms.append(f'Bool.eqb (tmatch (of_tree {enc_tree(ast.Constant(value=p))}) {enc_tree(tgt.a)}) {"true" if got["Constant/fst"] else "false"}')
+            tm_meta.append({'pattern_value': repr(p), 'target_src': src, 'real_match': got['Constant/fst']})
+            if p is ...:     # the wildcard: MConstant(value=M(v=...)) names no kind and any value
+                wild = tgt.match(MConstant(value=M(v=...))) is not None
+                k = enc_tree(ast.Constant(value=0)).split()[1]
+                tm_terms.append(f'Bool.eqb (tmatch (TNode {k} [TAny; TAny]) {enc_tree(tgt.a)}) {"true" if wild else "false"}')
+                tm_meta.append({'pattern': 'MConstant(value=M(v=...))', 'target_src': src, 'real_match': wild})
             bad = sorted(k for k, v in got.items() if v != want)
             if bad:
                 ctx.violation(f'prim-leaf|{type(p).__name__}-vs-{type(t).__name__}|{"matches-different" if not want else "rejects-same"}',
                               'a primitive leaf of a pattern matches a different value (or rejects the same one)', {'pattern_value': repr(p), 'target_src': src, 'expected_match': want, 'wrong': bad})
 
+
+    try:
+        failed = coq_eval_bools('C17_treematch_prim', TM_HDR, tm_terms, shard=200)
+        ctx.correspondence('models/TreeMatch.v tmatch == FST.match(Constant(value=p)) on every pair of primitive leaves (None, falsy and truthy values of every constant type, `...` as the wildcard)', len(tm_terms), [tm_meta[k] for k in failed])
+    except CoqEvalError as e:
+        ctx.broken.append({'kind': 'correspondence', 'name': 'treematch-prim', 'detail': str(e)[:2000]})
 
 def stage_type_patterns(ctx: Ctx):
     """deterministic: for every node of the field programs and each of its fields, the pattern that asks for the TYPE of what the pure AST holds there (a node class, str / int /
